@@ -34,6 +34,11 @@ type ScenCfg struct {
 	GetEvery int      `json:"get_every,omitempty"`
 	// Bystander: a second, negotiated, idle session is open throughout and must stay undisturbed.
 	Bystander bool `json:"bystander,omitempty"`
+	// ElecHigh: high 64 bits of the election ids used by the run's sessions.
+	ElecHigh uint64 `json:"elec_high,omitempty"`
+	// LateSession: the first Modify session is opened only when the first modify step
+	// needs it, so earlier steps see a server that has learnt no election id.
+	LateSession bool `json:"late_session,omitempty"`
 }
 
 type FlushSpec struct {
@@ -42,6 +47,9 @@ type FlushSpec struct {
 	Override  bool       `json:"override,omitempty"`
 	EmptyName bool       `json:"empty_name,omitempty"`
 	ID        *[2]uint64 `json:"id,omitempty"` // high, low
+	// RelID: the id is relative to the highest id the server has learnt at that moment
+	// (1 max, 2 max+1, 3 max-1, 4 (high+1, 0), 5 (high-1, 2^64-1)).
+	RelID int `json:"rel_id,omitempty"`
 }
 
 type GetSpec struct {
@@ -500,6 +508,9 @@ func genG1(seed uint64, prop string) *Scenario {
 	case "C07":
 		cfg.FullPayl = true
 		cfg.GetEvery = 0
+	case "C08":
+		cfg.ElecHigh = []uint64{0, 0, 1, 1 << 63, ^uint64(0)}[r.IntN(5)]
+		cfg.LateSession = r.IntN(4) == 0
 	case "C16":
 		cfg.Hooks = []string{"post", "both"}[r.IntN(2)]
 		cfg.VRFMode = []string{"opt", "late"}[r.IntN(2)]
@@ -530,6 +541,32 @@ func genG1(seed uint64, prop string) *Scenario {
 				fs.NI = g.ni()
 			}
 			fs.Override = true
+			if prop == "C08" {
+				// the full decision table: target selection x election field (ids relative to the highest learnt id)
+				switch g.pick(8) {
+				case 0:
+					fs.All, fs.NI = false, "" // unset
+				case 1:
+					fs.All, fs.NI = false, "NO-SUCH-VRF"
+				case 2:
+					fs.All, fs.NI, fs.EmptyName = false, "", true
+				}
+				switch g.pick(8) {
+				case 0:
+					fs.Override = false // no election field
+				case 1:
+					fs.Override = false
+					fs.ID = &[2]uint64{0, 0}
+				case 2, 3, 4:
+					fs.Override = false
+					fs.RelID = 1 + g.pick(5) // 1 max, 2 max+1, 3 max-1, 4 high word +1 / low 0, 5 high word -1 / low max
+					fs.ID = &[2]uint64{0, 1}
+				case 5:
+					fs.Override = false
+					id := genID(g.r)
+					fs.ID = &id
+				}
+			}
 			sc.Steps = append(sc.Steps, Step{T: "flush", Flush: fs})
 		case x < pFlush+pHandover:
 			sess++
